@@ -508,7 +508,8 @@ class WorkTree:
             st = None
             try:
                 st = os.lstat(os.path.join(self.path, fs_path))
-            except FileNotFoundError:
+            except (FileNotFoundError, NotADirectoryError):
+                # (a leading directory may have become a file)
                 pass
 
             blob_obj = self._repo[tree_entry[1]]
